@@ -187,6 +187,13 @@ func runCase(en *Env, c fcase, ioName string, seed int64) (h.Ev, string, bool) {
 				return
 			}
 		}
+		// what the reader hands out is kept until the whole file has been read and only then compared: a caller that
+		// reads a sequence of records holds all of them (the index keeps the keys of hint records)
+		type got struct {
+			key, val []byte
+			ok       bool
+		}
+		gots := make([]got, len(recs))
 		for i := range recs {
 			if recs[i].kind == "hint" {
 				key, pos, err := rdr.NextHintRecord()
@@ -194,7 +201,8 @@ func runCase(en *Env, c fcase, ioName string, seed int64) (h.Ev, string, bool) {
 					seqerr = h.ErrName(err)
 					return
 				}
-				seq = append(seq, map[string]any{"blk": -1, "off": -1, "size": -1, "same": bytes.Equal(key, recs[i].key) && *pos == recs[i].hpos})
+				gots[i] = got{key: key, ok: *pos == recs[i].hpos}
+				seq = append(seq, map[string]any{"blk": -1, "off": -1, "size": -1, "same": false})
 				continue
 			}
 			lr, pos, err := rdr.NextLogRecord()
@@ -202,9 +210,18 @@ func runCase(en *Env, c fcase, ioName string, seed int64) (h.Ev, string, bool) {
 				seqerr = h.ErrName(err)
 				return
 			}
-			same := bytes.Equal(lr.Key, recs[i].key) && bytes.Equal(lr.Value, recs[i].val) && lr.Type == recs[i].typ && lr.BatchID == recs[i].bt
-			seq = append(seq, map[string]any{"blk": int(pos.BlockID), "off": int(pos.Offset), "size": int(pos.Size), "same": same})
+			gots[i] = got{key: lr.Key, val: lr.Value, ok: lr.Type == recs[i].typ && lr.BatchID == recs[i].bt}
+			seq = append(seq, map[string]any{"blk": int(pos.BlockID), "off": int(pos.Offset), "size": int(pos.Size), "same": false})
 		}
+		defer func() {
+			for i := range seq {
+				same := gots[i].ok && bytes.Equal(gots[i].key, recs[i].key)
+				if recs[i].kind != "hint" {
+					same = same && bytes.Equal(gots[i].val, recs[i].val)
+				}
+				seq[i]["same"] = same
+			}
+		}()
 		if _, _, err := rdr.NextLogRecord(); err != io.EOF {
 			seqerr = "noeof:" + h.ErrName(err)
 		}
